@@ -143,7 +143,7 @@ theorem no_type_numericKws (g : NKind) (r : FieldRules) : ∀ p ∈ Impl.numeric
 
 theorem no_type_stringCore (r : FieldRules) : ∀ p ∈ Impl.stringCore r, p.1 ≠ K.type := by
   intro p hp
-  simp only [Impl.stringCore, List.mem_append] at hp
+  simp only [Impl.stringCore, Impl.stringCoreWith, List.mem_append] at hp
   rcases hp with ((h | h) | h) | h
   · rw [mem_countKw h]; decide
   · rw [mem_countKw h]; decide
